@@ -56,8 +56,8 @@ mutual
 theorem resp_well : ∀ (a b : NSNode) (sc : Scope), NSNode.Resp a b → NSNode.Well sc a → NSNode.Well sc b
   | .elem p l j as o ks cp cl c, b, sc, h, hw => by
     obtain ⟨ks', rfl, hk⟩ := h
-    obtain ⟨h1, h2, h3, h4, h5, h6⟩ := hw
-    exact ⟨h1, h2, h3, h4, by rw [respList_noAdj ks ks' hk]; exact h5, respList_well ks ks' _ hk h6⟩
+    obtain ⟨h1, h2, h3, h4, h5, h6, h7⟩ := hw
+    exact ⟨h1, h2, h3, h4, by rw [respList_noAdj ks ks' hk]; exact h5, respList_well ks ks' _ hk h6, h7⟩
   | .empty p l j as e, b, sc, h, hw => by cases h; exact hw
   | .chars ps, b, sc, h, _ => by
     obtain ⟨ps', rfl, _, _, hw', _⟩ := h
